@@ -11,8 +11,8 @@
 (*    before), lims (the per-split limits the harness computes from N as   *)
 (*    parity.c:29 does), total (blockmax * block size asked for), ok,      *)
 (*    sizes1 (recorded after, read with the independent content decoder),  *)
-(*    fs1 (file sizes after), const (limits unchanged since the array was  *)
-(*    made and no file beyond its limit)].                                 *)
+(*    fs1 (file sizes after), recorded (all sizes0 come from the content    *)
+(*    file)].                                                              *)
 (* TLC checks each line against SplitMap!Chsize (what parity.c is read to  *)
 (* do) and against the statement (ResizeOK, PlacesKept, NoStraddle).       *)
 (***************************************************************************)
@@ -47,7 +47,7 @@ StepSync(e) ==
 StepFix(e) ==
     LET r == Chsize(e.sizes0, e.fs0, e.lims, e.total)
         okModel == /\ r.ok = e.ok
-                   /\ e.ok => r.sizes = e.sizes0                 \* the map used by this fix is the recorded one
+                   /\ (e.ok /\ e.recorded) => r.sizes = e.sizes0  \* the map used by this fix is the recorded one
                    /\ \A s \in 1..Len(e.fs1) : e.fs1[s] <= r.fs[s]
         okDecl == /\ e.sizes1 = e.sizes0
                   /\ e.ok => \A s \in 1..Len(e.fs1) : e.fs1[s] <= e.sizes1[s] /\ e.fs1[s] % B = 0
